@@ -65,7 +65,13 @@ VCOL = np.array([[(90 + 13 * t) % 256, (31 * t + 7) % 256, (250 - 9 * t) % 256, 
 FCOL_KEY = {tuple(int(x) for x in c): k for k, c in enumerate(FCOL)}
 VCOL_KEY = {tuple(int(x) for x in c): k for k, c in enumerate(VCOL)}
 # uv / normal classes 0..3: class div 2 is what is left at coarse digits
-UVS = np.array([[0.2 * (u // 2) + 0.004 * (u % 2), 0.1 * (u // 2) + 0.02] for u in range(4)], dtype=np.float64)
+# classes 4..11 are classes 0..3 moved by whole texture repeats (seam columns, tiled coordinates): different
+# texture coordinates all the same; class 4 + b = class b + (1, 0) and 8 + b = class b + (2, 0) for b in 0..1,
+# 4 + b = class b + (0, 1) and 8 + b = class b + (0, -1) for b in 2..3
+_UV0 = [[0.2 * (u // 2) + 0.004 * (u % 2), 0.1 * (u // 2) + 0.02] for u in range(4)]
+_SHIFT = {4: ((1, 0), (0, 1)), 8: ((2, 0), (0, -1))}
+UVS = np.array(_UV0 + [[_UV0[b][0] + _SHIFT[g][b // 2][0], _UV0[b][1] + _SHIFT[g][b // 2][1]]
+                       for g in (4, 8) for b in range(4)], dtype=np.float64)
 _T = 0.1
 NORMS = np.array([[1, 0, 0], [np.cos(_T), np.sin(_T), 0], [0, 0, 1], [0, np.sin(_T), np.cos(_T)]], dtype=np.float64)
 NONFINITE = ([np.nan, 0.5, 0.5], [np.inf, 0.5, 0.5], [0.5, -np.inf, 0.5], [np.nan, np.nan, np.nan])
@@ -108,9 +114,29 @@ def decode_colors(arr, key):
 
 
 # ------------------------------------------------------------------ concrete meshes
-def build(trimesh, am, vis, hasn, pre, rs, foff=0, voff=0):
-    """abstract mesh -> Trimesh(process=False) with identity tags attached"""
+def build(trimesh, am, vis, hasn, pre, rs, foff=0, voff=0, made=""):
+    """abstract mesh -> Trimesh(process=False) with identity tags attached.  An abstract mesh without faces
+    is made directly or (made = "masked") by masking away the only face of a mesh; one without slots is
+    trimesh.Trimesh()."""
     n = len(am["pos"])
+    if n == 0:
+        m = trimesh.Trimesh()
+        if vis == "texture":
+            # the same (empty) material as the other operands: concatenating different materials packs
+            # them into an atlas and rewrites every uv, which is not a re-indexing question
+            m.visual = trimesh.visual.TextureVisuals(uv=np.zeros((0, 2)))
+        return m
+    if made == "masked":
+        if am["faces"]:
+            raise MachineryError("only an operand without faces is made by masking")
+        ghost = dict(am, faces=[[0, 0, n - 1]])
+        m = build(trimesh, ghost, vis, hasn, False, rs, foff=MAXTAG - 1, voff=voff)
+        m.update_faces(np.array([False]))
+        if len(m.faces) != 0 or len(m.vertices) != n:
+            raise MachineryError("masking the only face away did not leave the vertices")
+        if hasn:                                # the stored normals went with the face array: store them again
+            m.vertex_normals = NORMS[np.array(am["nc"], dtype=np.int64)]
+        return m
     V = np.zeros((n, 3), dtype=np.float64)
     for s, p in enumerate(am["pos"]):
         if p == 0:
@@ -124,6 +150,8 @@ def build(trimesh, am, vis, hasn, pre, rs, foff=0, voff=0):
         raise MachineryError("Trimesh(process=False) did not keep the input arrays")
     ft = np.arange(len(F)) + foff
     vt = np.arange(n) + voff
+    if vis == "face" and len(F) == 0:
+        vis = "none"                            # no face to colour
     if vis == "face":
         m.visual.face_colors = FCOL[ft]
     elif vis == "vertex":
@@ -138,7 +166,7 @@ def build(trimesh, am, vis, hasn, pre, rs, foff=0, voff=0):
         m.vertex_normals = NORMS[np.array(am["nc"], dtype=np.int64)]
         if m._cache["vertex_normals"] is None:
             raise MachineryError("vertex normals were not stored")
-    if pre:
+    if pre and len(F) > 0:
         # derived values read before the operation: a stale copy would be carried across it
         m.face_normals
         m.triangles
@@ -174,12 +202,12 @@ def project(r, vis, hasn):
         if kind == "face" or sound:
             fcol = r.visual.face_colors
             out["fcn"] = int(len(fcol))
-            if vis == "face":
+            if vis == "face" and kind is not None:
                 out["fc"] = chan(decode_colors(fcol, FCOL_KEY))
         if kind == "vertex" or sound:
             vcol = r.visual.vertex_colors
             out["vcn"] = int(len(vcol))
-            if vis == "vertex":
+            if vis == "vertex" and kind is not None:
                 out["vc"] = chan(decode_colors(vcol, VCOL_KEY))
     elif kind == "texture" and vis == "texture":
         uv = r.visual.uv
@@ -210,20 +238,28 @@ def run_case(trimesh, case, rs):
            "mk": case.get("mk", ""), "mask": case.get("mask", []), "inv": case.get("inv", []),
            "seq": case.get("seq", []), "outs": [], "cat": [], "how": case.get("how", ""),
            "k": case["k"], "nf_kind": am["nf_kind"],
-           "cut": [len(case["parts"][0]["pos"]), len(case["parts"][0]["faces"])] if op == "concatenate" else []}
+           "cut": [[len(q["pos"]), len(q["faces"]), q.get("made", "")] for q in case["parts"]] if op == "concatenate" else []}
     stage = "build"
     try:
         if op == "concatenate":
-            a, b = case["parts"]
-            ma = build(trimesh, a, vis, hasn, pre, rs)
-            mb = build(trimesh, b, vis, hasn, pre and case["how"] != "add", rs, foff=len(a["faces"]), voff=len(a["pos"]))
+            ms, foff, voff = [], 0, 0
+            for j, q in enumerate(case["parts"]):
+                ms.append(build(trimesh, q, vis, hasn, pre and (j == 0 or case["how"] != "add"), rs,
+                                foff=foff, voff=voff, made=q.get("made", "")))
+                foff += len(q["faces"])
+                voff += len(q["pos"])
             stage = op
             if case["how"] == "add":
-                res = [ma + mb]
+                whole = ms[0]
+                for mq in ms[1:]:
+                    whole = whole + mq
+                res = [whole]
+            elif case["how"] == "two" and len(ms) == 2:
+                res = [trimesh.util.concatenate(ms[0], ms[1])]
             elif case["how"] == "two":
-                res = [trimesh.util.concatenate(ma, mb)]
+                res = [trimesh.util.concatenate(ms[0], ms[1:])]
             else:
-                res = [trimesh.util.concatenate([ma, mb])]
+                res = [trimesh.util.concatenate(ms)]
         else:
             m = build(trimesh, am, vis, hasn, pre, rs)
             stage = op
@@ -307,6 +343,9 @@ def classes_for(rs, pos):
                 lst.append(lst[prev[rs.randint(len(prev))]] ^ 1)
             else:
                 lst.append(int(rs.randint(4)))
+        # texture coordinates of a twin one or two whole repeats away (seam vertices)
+        if prev and rs.rand() < 0.3:
+            uvc[-1] = (uvc[prev[rs.randint(len(prev))]] + 4 * int(rs.randint(1, 3))) % 12
     return uvc, nc
 
 
@@ -557,17 +596,34 @@ def plan_for(rs, k, am, partner, tier):
         add("split", {"ow": True, "rep": False})
     if rs.rand() < 0.3 and not light:
         add("split", {"ow": False, "rep": True})
-    if not take():
-        return runs
-    # concatenation with a second mesh: the record carries the two inputs stacked into one original
-    b = partner
-    both = {"pos": am["pos"] + b["pos"], "uvc": am["uvc"] + b["uvc"], "nc": am["nc"] + b["nc"],
-            "faces": am["faces"] + [[s + n for s in f] for f in b["faces"]], "nf_kind": am["nf_kind"]}
+    # concatenation: the record carries the inputs stacked into one original
+    if take():
+        runs.append(concat_case(state, [am, partner]))
+    # ... with an operand that has vertices but no faces (made directly, or left over when every face was
+    # masked away) or nothing at all, in first / middle / last place
+    if take():
+        u = rs.rand()
+        bare = {"pos": [int(p) for p in rs.choice([1, 3, 5, 7, 9], rs.randint(1, 4))], "faces": [], "nf_kind": 0,
+                "made": "masked" if rs.rand() < 0.5 else ""}
+        bare["uvc"], bare["nc"] = classes_for(rs, bare["pos"])
+        none = {"pos": [], "faces": [], "uvc": [], "nc": [], "nf_kind": 0}
+        c = none if u < 0.2 else bare
+        order = ([c, am], [am, c, partner], [am, partner, c], [c, am, partner], [am, c], [bare, none, am])[(k + turn[0]) % 6]
+        runs.append(concat_case(state, order))
+    return runs
+
+
+def concat_case(state, parts):
     j = state[0]
     state[0] += 1
-    runs.append({"am": both, "op": "concatenate", "o": {}, "vis": VISUALS[j % 4], "hasn": (j // 4) % 2 == 0,
-                 "pre": (j // 2) % 3 == 0, "k": j, "parts": (am, b), "how": ("list", "add", "two")[j % 3]})
-    return runs
+    both = {"pos": [], "uvc": [], "nc": [], "faces": [], "nf_kind": parts[0]["nf_kind"]}
+    for q in parts:
+        off = len(both["pos"])
+        both["faces"] += [[s + off for s in f] for f in q["faces"]]
+        for key in ("pos", "uvc", "nc"):
+            both[key] = both[key] + q[key]
+    return {"am": both, "op": "concatenate", "o": {}, "vis": VISUALS[j % 4], "hasn": (j // 4) % 2 == 0,
+            "pre": (j // 2) % 3 == 0, "k": j, "parts": list(parts), "how": ("list", "add", "two")[j % 3]}
 
 
 def work_items(tier):
@@ -637,11 +693,14 @@ def replay_cases(path):
         case = {"am": am, "op": d["op"], "o": d["o"], "vis": d["vis"], "hasn": d["hasn"], "pre": d["pre"], "k": d["k"],
                 "mk": d["mk"], "mask": d["mask"], "inv": d["inv"], "seq": d["seq"], "how": d["how"], "family": "replay"}
         if d["op"] == "concatenate":
-            na, nfa = d["cut"]
-            a = {"pos": d["pos"][:na], "uvc": d["uvc"][:na], "nc": d["nc"][:na], "faces": d["faces"][:nfa], "nf_kind": d["nf_kind"]}
-            b = {"pos": d["pos"][na:], "uvc": d["uvc"][na:], "nc": d["nc"][na:], "nf_kind": d["nf_kind"],
-                 "faces": [[x - na for x in f] for f in d["faces"][nfa:]]}
-            case["parts"] = (a, b)
+            parts, v0, f0 = [], 0, 0
+            for nq, nfq, made in d["cut"]:
+                parts.append({"pos": d["pos"][v0:v0 + nq], "uvc": d["uvc"][v0:v0 + nq], "nc": d["nc"][v0:v0 + nq],
+                              "faces": [[x - v0 for x in f] for f in d["faces"][f0:f0 + nfq]],
+                              "nf_kind": d["nf_kind"], "made": made})
+                v0 += nq
+                f0 += nfq
+            case["parts"] = parts
         out.append(case)
     return out
 
